@@ -30,6 +30,7 @@ META = {
         " Fault-overlap family (mc/fault_overlap.py): message X suffers one fault out of {pre_execute/post_execute/post_save/on_error hook, sync or async ack, result backend} x {RuntimeError, CancelledError, TimeoutError}, backend failing once, body raise/CancelledError/timeout/no-result, malformed/unknown message, broker stream error, while the healthy message Y has suspension points before, inside and after its function and the stop request may arrive at any point; Y's result is stored exactly once and reflects its outcome, so is X's for body outcomes and backend failures with an Exception; X is exempt for hook / ack faults, CancelledError from the backend and junk."
         " Repeated faults (mc/fault_overlap.py::repeats): the same fault k times in a row (k in 3..6; thorough up to 10) on one worker, then healthy messages - a counter, pool, budget or throttle inside the worker must not change what happens at the k-th occurrence. The healthy messages' results must be stored."
         " Typed and partially typed wire labels (incl. an un-typed timeout label): the stored labels equal the sent ones in value and type and the timeout is enforced."
+        " Sync functions on an executor that pickles callable and arguments (as a process pool does), the task being an importable module-level function."
     ),
     "assumptions": [
         "sync tasks run on a fake executor: completion is an explorer event; in the 'threads' scenarios each sync function runs on a real thread under a strict baton hand-off (entering and leaving the function are separate explorer events, so executions overlap), otherwise atomically with no thread",
@@ -239,6 +240,11 @@ def scenarios(tier: str) -> List[Dict[str, Any]]:
     for j in range(len(sync_base)):
         sc = _sc([dict(sync_base[j]), _m("async", value=1), dict(sync_base[0])], 0, a=3)
         sc["executor"] = "threads"
+        out.append(sc)
+    # sync functions on an executor that pickles what it is given (a process pool)
+    for m in (_m("sync", value=42), _m("sync", outcome="raise"), _m("sync", outcome="noresult"), _m("sync", value=[1, {"k": None}], timeout=0.4)):
+        sc = _sc([dict(m), _m("async", value=1), dict(m)], 0, a=2)
+        sc["executor"] = "pickle"
         out.append(sc)
     if tier == "thorough":
         for js in itertools.product(range(4), repeat=3):
